@@ -554,7 +554,7 @@ pub fn c08(thorough: bool, seed: u64) -> CheckOutput {
     let n_sampled = if thorough { 60 } else { 12 };
     let sp = Space {
         // memo-rich ranges included: state carried across calls tends to live in the memo
-        ranges: vec![(0, 0), (1, 1), (2, 9), (10, 50), (60, 300), (7, 3), (300, 600), (300, 600), (800, 1200), (2500, 2600)],
+        ranges: vec![(0, 0), (1, 1), (2, 9), (10, 50), (60, 300), (7, 3), (300, 600), (300, 600), (800, 1200), (2500, 2600), (9000, 9100)],
         ..Space::full()
     };
     let ex = &exhaustive;
@@ -573,9 +573,12 @@ pub fn c08(thorough: bool, seed: u64) -> CheckOutput {
                 let n = 1500 + rng.below(3000) as usize;
                 rng.bytes(n)
             }];
-            for h in ex {
+            // expensive (long) configurations run a sixth of the exhaustive histories
+            let stride = if cfg.min >= 2000 { 6 } else { 1 };
+            for h in ex.iter().skip(i % stride).step_by(stride) {
                 check_history(&cfg, &inputs, h, acc);
             }
+            let n_sampled = if cfg.min >= 2000 { n_sampled / 4 } else { n_sampled };
             for _ in 0..n_sampled {
                 let len = 4 + rng.below(3) as usize;
                 let h: Vec<Call> = (0..len).map(|_| alphabet[rng.below(4) as usize].clone()).collect();
